@@ -1,0 +1,52 @@
+//go:build verif
+
+package main
+
+import (
+	"bufio"
+	"encoding/hex"
+	"fmt"
+	"io/ioutil"
+	"os"
+	"testing"
+)
+
+// TestVerifInterpolationDriver serves the verification harness (build tag
+// verif): it reads hex-encoded configuration texts from stdin, one per line,
+// and answers each with the hex-encoded result of readConfigFile.
+func TestVerifInterpolationDriver(t *testing.T) {
+	if os.Getenv("VERIF_DRIVER") == "" {
+		t.Skip("only run by the verification harness")
+	}
+	f, err := ioutil.TempFile("", "verif-cfg")
+	if err != nil {
+		t.Fatal(err)
+	}
+	defer os.Remove(f.Name())
+	f.Close()
+	in := bufio.NewReaderSize(os.Stdin, 1<<20)
+	out := bufio.NewWriter(os.Stdout)
+	for {
+		line, err := in.ReadString('\n')
+		if len(line) > 0 && line[len(line)-1] == '\n' {
+			line = line[:len(line)-1]
+		}
+		if line == "" && err != nil {
+			return
+		}
+		data, derr := hex.DecodeString(line)
+		if derr != nil {
+			fmt.Fprintf(out, "ERR %s\n", derr)
+			out.Flush()
+			continue
+		}
+		if werr := ioutil.WriteFile(f.Name(), data, 0600); werr != nil {
+			t.Fatal(werr)
+		}
+		fmt.Fprintf(out, "OUT %s\n", hex.EncodeToString([]byte(readConfigFile(f.Name()))))
+		out.Flush()
+		if err != nil {
+			return
+		}
+	}
+}
